@@ -41,6 +41,7 @@ type Res struct {
 	RolledBack  int          `json:"rolled_back"`
 	FaultsFired int          `json:"faults_fired"`
 	NodeDeleting int         `json:"node_deleting_txns"`
+	Interleaved  int         `json:"interleaved_pairs"`
 	Walk        walk.Report  `json:"walk"`
 	APIProblem  string       `json:"api_problem,omitempty"`
 	ModelDiff   string       `json:"model_diff,omitempty"`
@@ -82,6 +83,44 @@ func history(i int, seed int64, extra []string) any {
 			continue
 		}
 		res.Txns++
+		if rnd.Intn(5) == 0 {
+			// interleaved pair: T1 works but does not commit yet, T2 changes another key of the same store
+			// and commits first, then T1 commits: T1's commit has to refetch, merge and retry.
+			p2 := txn.Gen(rnd, []string{"S3-leaf-insert", "S6-updates", "S4-split"}[rnd.Intn(3)], model, specs, fmt.Sprintf("i%d", k))
+			if ok := disjoint(prog, p2); ok && len(p2.Ops) > 0 {
+				t1, e1 := mir.Begin(sop.ForWriting, 15*time.Minute)
+				t2, e2 := mir.Begin(sop.ForWriting, 15*time.Minute)
+				if e1 == nil && e2 == nil {
+					r1, x1 := txn.Run(mir, t1, prog)
+					r2, x2 := txn.Run(mir, t2, p2)
+					if r1 == nil && x1 == nil && r2 == nil && x2 == nil {
+						c2, cancel2 := context.WithTimeout(ctx, 5*time.Second)
+						err2 := t2.Commit(c2)
+						cancel2()
+						c1, cancel1 := context.WithTimeout(ctx, 5*time.Second)
+						err1 := t1.Commit(c1)
+						cancel1()
+						if err2 == nil {
+							model = model.Apply(p2)
+							res.Committed++
+						} else {
+							res.Failed++
+						}
+						if err1 == nil {
+							model = model.Apply(prog)
+							res.Committed++
+						} else {
+							res.Failed++
+						}
+						res.Interleaved++
+						res.Log = append(res.Log, fmt.Sprintf("txn %d %s: interleaved pair, T2 err=%v, T1 err=%v; T1 ops=%s; T2 ops=%s", k, shape, err2, err1, opsStr(prog), opsStr(p2)))
+						continue
+					}
+					t1.Rollback(ctx)
+					t2.Rollback(ctx)
+				}
+			}
+		}
 		t, err := mir.Begin(sop.ForWriting, 15*time.Minute)
 		if err != nil {
 			res.Harness = "begin: " + err.Error()
@@ -106,7 +145,7 @@ func history(i int, seed int64, extra []string) any {
 			plan.NoTrace = true
 			deco.Install(plan)
 			plan.Arm()
-			cctx, cancel := context.WithTimeout(ctx, 10*time.Second)
+			cctx, cancel := context.WithTimeout(ctx, 5*time.Second)
 			err := t.Commit(cctx)
 			cancel()
 			plan.Disarm()
@@ -127,7 +166,7 @@ func history(i int, seed int64, extra []string) any {
 		default:
 			// a caller deadline bounds the documented 3-minute sector-lock wait that a leaked lock of an
 			// earlier injected failure can cause (C07/C15 matter)
-			cctx, cancel := context.WithTimeout(ctx, 10*time.Second)
+			cctx, cancel := context.WithTimeout(ctx, 5*time.Second)
 			err := t.Commit(cctx)
 			cancel()
 			if err == nil {
@@ -149,7 +188,8 @@ func history(i int, seed int64, extra []string) any {
 	d := sopx.DumpDB(db)
 	res.ModelDiff = txn.DiffContent(d, model.Dump())
 	for _, s := range d.Stores {
-		if d.By[s].Err != "" {
+		// the first failing store counts; later ones fail only because the wrapper ended the transaction
+		if d.By[s].Err != "" && res.APIProblem == "" {
 			res.APIProblem = "store " + s + ": " + d.By[s].Err
 		}
 	}
@@ -161,6 +201,28 @@ func history(i int, seed int64, extra []string) any {
 	sort.Strings(keys)
 	res.Hash = fmt.Sprintf("%d-%s-%s-%d", i, p1, p2, res.Txns)
 	return res
+}
+
+func opsStr(p txn.Program) string {
+	s := ""
+	for _, o := range p.Ops {
+		s += fmt.Sprintf("%s:%s(%s) ", o.Store, o.Kind, o.K)
+	}
+	return s
+}
+
+// disjoint reports whether two programs touch no common (store, key).
+func disjoint(a, b txn.Program) bool {
+	seen := map[string]bool{}
+	for _, o := range a.Ops {
+		seen[o.Store+"/"+o.K] = true
+	}
+	for _, o := range b.Ops {
+		if seen[o.Store+"/"+o.K] {
+			return false
+		}
+	}
+	return true
 }
 
 // RunWorkers runs n histories in the given mode and returns the results.
